@@ -71,6 +71,20 @@ Theorem C20_subarray_agrees_with_pad :
 Proof. exact subarray_is_pad_crop. Qed.
 Print Assumptions C20_subarray_agrees_with_pad.
 
+(* window: pad when only a shape is given, the numpy view when a slice is given, AssertionError when
+   both are given and disagree *)
+Theorem C20_window_is_pad_or_view :
+  forall (S : Scalar) (a : arr S), nr a * nc a <> 1 ->
+  (forall h w, window a (Some (h, w)) None = pad2 a h w) /\
+  window a None None = Ok a /\
+  (forall r0 r1 c0 c1, 0 <= r0 <= r1 -> r1 <= nr a -> 0 <= c0 <= c1 -> c1 <= nc a ->
+     exists b, window a None (Some (r0, r1, c0, c1)) = Ok b /\ nr b = r1 - r0 /\ nc b = c1 - c0 /\
+       forall i j, get b i j = get a (i + r0) (j + c0)) /\
+  (forall h w r0 r1 c0 c1, (r1 - r0 <> h \/ c1 - c0 <> w) ->
+     window a (Some (h, w)) (Some (r0, r1, c0, c1)) = Err AssertionErr).
+Proof. exact window_spec. Qed.
+Print Assumptions C20_window_is_pad_or_view.
+
 (* boundary is the exact bounding box of the samples that pass the threshold test [p]: every such
    sample is inside, every side is touched; with no such sample numpy raises IndexError *)
 Theorem C20_boundary_is_exact_bounding_box :
